@@ -46,6 +46,10 @@ func (r QuantityReporter) Flush() error {
 		sortable = append(sortable, SortTuple{k, v})
 	}
 
+	// order equal quantities by name, not by map iteration order
+	sort.Slice(sortable, func(i, j int) bool {
+		return sortable[i].name < sortable[j].name
+	})
 	if r.descending {
 		sort.SliceStable(sortable, func(i, j int) bool {
 			return sortable[i].value > sortable[j].value
